@@ -278,6 +278,97 @@ pub fn check_in(ctx: &Ctx, case: &ArcCase) -> Report {
         .label_if(model.iter().any(|m| m.parts.iter().any(|p| p.0.len() >= 8192)), "part>=8k")
 }
 
+
+/// libFuzzer leg: a history (names, write ops, read script) read from the bytes.
+pub fn from_fuzz(data: &[u8]) -> ArcCase {
+    use crate::fuzzing::Cur;
+    let mut c = Cur::new(data);
+    fn mag(c: &mut Cur) -> u64 {
+        match c.u8() % 10 {
+            0 | 1 | 2 => (c.u16() % 300) as u64,
+            3 | 4 => {
+                let k = (c.u8() % 8) as u32;
+                let d = (c.u8() % 3) as u64;
+                (1u64 << (8 * k + 8).min(63)).wrapping_sub(1).wrapping_add(d)
+            }
+            5 => u64::MAX,
+            6 => u64::MAX - 1,
+            7 => 1u64 << 63,
+            _ => c.u64(),
+        }
+    }
+    fn bytes(c: &mut Cur) -> Vec<u8> {
+        let b = c.u8();
+        match b {
+            0..=40 => Vec::new(),
+            41..=240 => c.take((b - 40) as usize).to_vec(),
+            241..=252 => {
+                let n = 200 + (c.u16() % 9000) as usize;
+                let mut r = SplitMix::new(c.u16() as u64);
+                (0..n).map(|_| r.next() as u8).collect()
+            }
+            _ => {
+                let n = 9000 + (c.u16() as usize) % 56536;
+                let mut r = SplitMix::new(c.u16() as u64);
+                (0..n).map(|_| r.next() as u8).collect()
+            }
+        }
+    }
+    let nn = 1 + c.u8() % 5;
+    let mut names: Vec<String> = Vec::new();
+    for _ in 0..nn {
+        let l = 1 + (c.u8() % 40) as usize;
+        let mut n: String = c.take(l).iter().map(|&b| (0x20 + b % 95) as char).collect();
+        if n.is_empty() {
+            n.push('s');
+        }
+        names.push(n);
+    }
+    names.dedup();
+    let nops = c.u8() % 40;
+    let mut ops = Vec::new();
+    for _ in 0..nops {
+        if c.is_empty() {
+            break;
+        }
+        let op = c.u8() % 13;
+        let stream = c.u8() % 8;
+        ops.push(match op {
+            0 | 1 | 2 => WOp::Register(stream),
+            3 | 4 | 5 | 6 => {
+                let data = bytes(&mut c);
+                WOp::Add { stream, data, meta: mag(&mut c) }
+            }
+            7 | 8 | 9 | 10 => {
+                let data = bytes(&mut c);
+                WOp::AddBuffered { stream, data, meta: mag(&mut c) }
+            }
+            11 => WOp::Flush,
+            _ => WOp::SetRaw { stream, raw: mag(&mut c) },
+        });
+    }
+    let nreads = c.u8() % 30;
+    let mut reads = Vec::new();
+    for _ in 0..nreads {
+        let op = c.u8() % 9;
+        let s = c.u8() % 8;
+        reads.push(match op {
+            0 | 1 | 2 => ROp::Next(s),
+            3 | 4 | 5 | 6 => ROp::ById(s, c.u16()),
+            7 => ROp::ByIdOutOfRange(s),
+            _ => ROp::Counts(s),
+        });
+    }
+    ArcCase { names, ops, reads }
+}
+
+pub fn fuzz_seeds() -> Vec<Vec<u8>> {
+    vec![
+        vec![2, 3, b'a', b'b', b'c', 2, b'x', b'y', 6, 0, 0, 0, 1, 3, 0, 45, 1, 2, 3, 4, 5, 0, 7, 0, 7, 1, 43, 9, 9, 9, 3, 0, 0, 11, 0, 3, 1, 0, 5, 4, 0, 0, 3, 1, 0, 0, 3, 0, 0, 0, 8, 0],
+        vec![1, 1, b'z', 3, 3, 0, 0, 0, 0, 7, 0, 0, 5, 11, 0, 2, 0, 0, 3, 0, 0, 0],
+    ]
+}
+
 fn magnitude() -> impl Strategy<Value = u64> {
     prop_oneof![
         3 => 0u64..300,
@@ -373,6 +464,9 @@ pub fn run(ctx: &Ctx, stats: &mut Stats) {
     let n = ctx.tier.pick(60_000, 1_000_000);
     let c2 = ctx.clone();
     run_prop(ctx, stats, "histories", n, strat(), &move |c: &ArcCase| check_in(&c2, c));
+    if ctx.tier == Tier::Thorough || std::env::var("VERIF_FUZZ").is_ok() {
+        crate::fuzzing::run_stage(ctx, stats, "arc", ctx.tier.pick(100_000, 2_000_000));
+    }
 }
 
 pub fn replay(ctx: &Ctx, stage: &str, case: &Value) -> Report {
